@@ -19,6 +19,7 @@ Theorem C09_validate_is_txn_by_txn : forall H net vt pt se sd s b,
    do _ <- fold_r (fun m t => do _ <- validate_txn2 H net vt pt se sd s m t; apply_txn2 net s m t) (b_v2txns b) m;
    Ok tt).
 Proof. reflexivity. Qed.
+Print Assumptions C09_validate_is_txn_by_txn.
 
 (* spending records the presented element unchanged (validation has shown it equal to the stored leaf) *)
 Theorem C09_spend_records_presented : forall m e lf txid m', spend_sce m e lf txid = Ok m' ->
